@@ -144,6 +144,11 @@ def text_case(draw, allow_invalid=True):
         segs.append(draw(tag_segment(allow_invalid)))
         if draw(st.integers(0, 2)) == 0:
             segs.append({"lines": [draw(st.sampled_from(FILLER))], "tag": None})
+    if draw(st.integers(0, 9)) == 0:
+        # a value ending in a quote or bracket, and a next line that begins like the rest of a 'special ending' ('">', '] ::')
+        v, nxt = draw(st.sampled_from([('Jane "JD"', ">"), ("Jane 'JD'", "/>"), ("Jane [x]", "::"), ('Zoe "Z"', "  > quoted text")]))
+        segs.append({"lines": [f"# SPDX-FileContributor: {v}", nxt], "tag": {"kind": "con", "text": f"SPDX-FileContributor: {v}", "value": v, "form": "single", "style": "python",
+                                                                              "prefix_text": "#", "trailing": False}})
     if draw(st.integers(0, 7)) == 0:
         segs[0] = dict(segs[0], lines=["\ufeff" + segs[0]["lines"][0]] + segs[0]["lines"][1:], bom=True)
     return segs
